@@ -18,6 +18,7 @@ type Loop struct {
 	rangeIdx *ssa.Phi
 	rangeLen ssa.Value
 	rangeIt  *ssa.Range // map range iterator
+	rangeCell *ssa.Alloc // naive form: the hidden index lives in a cell
 	pos      token.Pos
 }
 
@@ -27,6 +28,7 @@ type FuncInfo struct {
 	loopList []*Loop
 	isCell   map[*ssa.Alloc]bool
 	names    map[string]ssa.Value // Alloc comments, params, free vars
+	allocsByName map[string][]*ssa.Alloc
 	hasLoops bool
 	ninstr   int
 }
@@ -35,7 +37,7 @@ func (x *Exec) info(fn *ssa.Function) *FuncInfo {
 	if fi, ok := x.finfo[fn]; ok {
 		return fi
 	}
-	fi := &FuncInfo{fn: fn, loops: map[*ssa.BasicBlock]*Loop{}, isCell: map[*ssa.Alloc]bool{}, names: map[string]ssa.Value{}}
+	fi := &FuncInfo{fn: fn, loops: map[*ssa.BasicBlock]*Loop{}, isCell: map[*ssa.Alloc]bool{}, names: map[string]ssa.Value{}, allocsByName: map[string][]*ssa.Alloc{}}
 	x.finfo[fn] = fi
 	for _, p := range fn.Params {
 		fi.names[p.Name()] = p
@@ -49,6 +51,7 @@ func (x *Exec) info(fn *ssa.Function) *FuncInfo {
 			if a, ok := ins.(*ssa.Alloc); ok {
 				fi.isCell[a] = allocIsCell(a)
 				if a.Comment != "" {
+					fi.allocsByName[a.Comment] = append(fi.allocsByName[a.Comment], a)
 					if _, dup := fi.names[a.Comment]; !dup {
 						fi.names[a.Comment] = a
 					}
@@ -115,13 +118,18 @@ func (x *Exec) info(fn *ssa.Function) *FuncInfo {
 			if phi, ok := ins.(*ssa.Phi); ok && phi.Comment == "rangeindex" {
 				lp.rangeIdx = phi
 			}
+			if ld, ok := ins.(*ssa.UnOp); ok && ld.Op == token.MUL {
+				if a, ok := ld.X.(*ssa.Alloc); ok && a.Comment == "rangeindex" && lp.rangeCell == nil {
+					lp.rangeCell = a
+				}
+			}
 			if nx, ok := ins.(*ssa.Next); ok {
 				if r, ok := nx.Iter.(*ssa.Range); ok {
 					lp.rangeIt = r
 				}
 			}
 		}
-		if lp.rangeIdx != nil {
+		if lp.rangeIdx != nil || lp.rangeCell != nil {
 			if iff, ok := lp.header.Instrs[len(lp.header.Instrs)-1].(*ssa.If); ok {
 				if bo, ok := iff.Cond.(*ssa.BinOp); ok && bo.Op == token.LSS {
 					lp.rangeLen = bo.Y
